@@ -129,6 +129,8 @@ structure State where
   started : Key → List Ev            -- history: events handed to the processor, per key
   processed : Key → List Ev          -- history: events whose processor call ended, per key
   failedK : Key → Bool               -- a worker of this key died with an exception (backlog dropped)
+  dropped : Key → List Ev            -- history: events that were in the watcher's hand when it was cancelled
+                                     -- (never happens in the real code: no suspension between `miss` and `insert`)
   closing : Bool                     -- the watcher left its `async for` (cancelled / stream over)
   closed : Bool                      -- `scheduler.close()` was called
 
@@ -136,7 +138,7 @@ def init (limit : Option Nat) : State :=
   { limit := limit, streams := fun _ => none, pc := fun _ => none, nextGen := fun _ => 0,
     pendingQ := [], running := [], hand := none,
     arrived := fun _ => [], started := fun _ => [], processed := fun _ => [],
-    failedK := fun _ => false, closing := false, closed := false }
+    failedK := fun _ => false, dropped := fun _ => [], closing := false, closed := false }
 
 inductive Label where
   | arrive (k : Key) (e : Ev)
@@ -158,6 +160,26 @@ inductive Label where
   | close
   | kill (w : Wid)
   deriving DecidableEq, Repr
+
+/-- raw events of an optional backlog ([] when there is no stream entry) -/
+def backlogOf : Option (List Item) → List Ev
+  | some b => evs b
+  | none => []
+
+@[simp] theorem backlogOf_none : backlogOf none = [] := rfl
+@[simp] theorem backlogOf_some (b : List Item) : backlogOf (some b) = evs b := rfl
+
+/-- the event in the watcher's hand, if it belongs to `k` -/
+def handOf : Option (Key × Ev) → Key → List Ev
+  | some (k', e), k => if k' = k then [e] else []
+  | none, _ => []
+
+@[simp] theorem handOf_none (k : Key) : handOf none k = [] := rfl
+@[simp] theorem handOf_some (k' : Key) (e : Ev) (k : Key) :
+    handOf (some (k', e)) k = if k' = k then [e] else [] := rfl
+
+/-- the hand's event is lost when the watcher is cancelled with an event in its hand -/
+def dropHand (s : State) : Key → List Ev := fun k => s.dropped k ++ handOf s.hand k
 
 /-- `limit is None or len(running) < limit` -/
 def canSpawn (s : State) : Bool :=
@@ -264,9 +286,10 @@ def stepCore (buggy : Bool) (s : State) : Label → Option State
     | some (.leaving f) =>
       some { s with pc := upd s.pc w none, running := s.running.filter (fun x => x ≠ w),
                     closing := s.closing || f,
+                    dropped := if f then dropHand s else s.dropped,
                     hand := if f then none else s.hand }
     | _ => none
-  | .cancelWatcher => some { s with closing := true, hand := none }
+  | .cancelWatcher => some { s with closing := true, dropped := dropHand s, hand := none }
   | .eosPut k =>
     if s.closing = true ∧ s.closed = false then
       match s.streams k with
@@ -390,27 +413,45 @@ def kSteps (k : Key) : State → List Label → Nat
 def NoArrivalFor (k : Key) (ls : List Label) : Prop :=
   ∀ l ∈ ls, ∀ e, l ≠ .arrive k e ∧ l ≠ .miss k e
 
-/-- raw events of an optional backlog ([] when there is no stream entry) -/
-def backlogOf : Option (List Item) → List Ev
-  | some b => evs b
-  | none => []
-
-@[simp] theorem backlogOf_none : backlogOf none = [] := rfl
-@[simp] theorem backlogOf_some (b : List Item) : backlogOf (some b) = evs b := rfl
-
-/-- the event in the watcher's hand, if it belongs to `k` -/
-def handOf : Option (Key × Ev) → Key → List Ev
-  | some (k', e), k => if k' = k then [e] else []
-  | none, _ => []
-
-@[simp] theorem handOf_none (k : Key) : handOf none k = [] := rfl
-@[simp] theorem handOf_some (k' : Key) (e : Ev) (k : Key) :
-    handOf (some (k', e)) k = if k' = k then [e] else [] := rfl
-
 /-- events of the backlog of `k` -/
 def backlogEvs (s : State) (k : Key) : List Ev := backlogOf (s.streams k)
 
 /-- the event in the watcher's hand, if it belongs to `k` -/
 def handEvs (s : State) (k : Key) : List Ev := handOf s.hand k
+
+/-! ### The event → key map: the watcher's bookmark filter and `get_uid`
+
+What decides which per-object queue a raw event goes to (before any label of the LTS above):
+`Bookmark.*` markers and `type == 'BOOKMARK'` events are skipped; otherwise the key is `metadata.uid`
+when the field is present, else `'//'.join(s or '-' for s in (kind, apiVersion, name, namespace,
+creationTimestamp))`. `keyOf` returns the components before the join (the join is injective as long as no
+component contains "//": Kubernetes names, kinds, versions and RFC 3339 timestamps never do). -/
+
+structure RawId where
+  bookmark : Bool            -- `isinstance(raw_event, Bookmark)` or `raw_event['type'] == 'BOOKMARK'`
+  uid : Option String        -- `metadata['uid']` when the field is present
+  kind : Option String
+  apiVersion : Option String
+  name : Option String
+  ns : Option String
+  ts : Option String
+  deriving DecidableEq, Repr
+
+/-- `s or '-'` -/
+def orDash : Option String → String
+  | some s => if s = "" then "-" else s
+  | none => "-"
+
+/-- `none`: the event is not multiplexed at all -/
+def keyOf (r : RawId) : Option (List String) :=
+  if r.bookmark then none
+  else match r.uid with
+    | some u => some [u]
+    | none => some [orDash r.kind, orDash r.apiVersion, orDash r.name, orDash r.ns, orDash r.ts]
+
+/-- an identity field as the API sends it: absent, or a non-empty string other than "-" -/
+def FieldOK : Option String → Prop
+  | some s => s ≠ "" ∧ s ≠ "-"
+  | none => True
 
 end Kopf.C01
